@@ -33,6 +33,7 @@ func checkC14(r *core.Run) {
 	c14Wipes(r, p)
 	c14Consts(r, p)
 	c14FixedWidth(r, p)
+	c14Radix(r, p)
 	c14Path(r, p)
 }
 
@@ -754,4 +755,38 @@ func c01ReadIntMap(pk *packages.Package, e ast.Expr, out map[int64]int64) {
 			}
 		}
 	}
+}
+
+// c14Radix: derivation path elements, counts and other numbers of the wallet's configuration are decimal. A
+// parse with base 0 lets a leading zero select octal ("044'" becomes 36'), so the keys are derived along
+// another path than the configured one. Every strconv.ParseInt/ParseUint in the wallet names its base.
+func c14Radix(r *core.Run, p *core.Program) {
+	const rule = "R-C14-path"
+	n := 0
+	var bad []string
+	for _, f := range p.ModuleFuncs() {
+		if pk := core.FuncPkg(f); pk == nil || pk.Path() != core.Module+"/wallet" {
+			continue
+		}
+		for _, name := range []string{"strconv.ParseInt", "strconv.ParseUint"} {
+			for _, c := range an.CallsTo(f, false, name) {
+				n++
+				if b := an.Expr(c.Common().Args[1]); b != "10" && b != "16" {
+					bad = append(bad, fmt.Sprintf("%s parses a number with base %s at %s", f.Name(), b, p.Pos(an.InstrPos(c.(ssa.Instruction)))))
+				}
+			}
+		}
+	}
+	// the path elements themselves
+	okPath := false
+	if mw := p.Func("wallet.make_wallet"); mw != nil {
+		for _, c := range an.CallsTo(mw, false, "strconv.ParseInt") {
+			a := c.Common().Args
+			if strings.Contains(an.Expr(a[0]), "strings.TrimSuffix(") && an.Expr(a[1]) == "10" && an.Expr(a[2]) == "32" {
+				okPath = true
+			}
+		}
+	}
+	sort.Strings(bad)
+	r.Check(len(bad) == 0 && n >= 5 && okPath, rule, "decimal-numbers", "-", fmt.Sprintf("%d number parses in the wallet, all with an explicit base; path elements base 10, 32 bits", n), strings.Join(bad, "; ")+map[bool]string{true: "", false: " the derivation path elements are not parsed as 32-bit decimal numbers"}[okPath])
 }
